@@ -141,6 +141,10 @@ pub struct Oracles {
     /// C16: every short name on the volume is legal (all entries were made by the library)
     #[serde(default)]
     pub alias_rules: bool,
+    /// C12 under transient storage errors: a hard device error does not end the run; the model-based oracles stay off
+    /// from then on, the status-byte rules (which need no model) stay on
+    #[serde(default)]
+    pub fault_resilient: bool,
 }
 
 #[derive(Clone, Debug, Serialize, Deserialize)]
